@@ -12,7 +12,7 @@ import (
 
 func init() {
 	register("C17", &propCheck{
-		explain:    "Elapsed time is not statically decidable; what is decided is that every wait on a command path is bounded by the right parameter and also wakes on its condition, and that every probe loop has an owner that stops it: (R17.1) exhaustive inventory of may-block instructions (select, channel receive/send, WaitGroup.Wait, time.Sleep, Cond.Wait) reachable from the RPC command handlers through calls, closures and joined goroutines, against a frozen table; each select has an arm on time.After(<the function's own timeout parameter>) created once, plus the awaited condition; (R17.1b) the deploy/drain/pause timeouts travel from the RPC argument to those parameters without being swapped (all are time.Duration); (R17.2) disposal chain Service -> both slots -> all targets -> stopHealthChecks -> cancel; (R17.3) remove disposes before unbinding, successful redeploy drains then disposes the replaced balancer, failed deploy disposes the new one on every error path, a timed-out target stops its own probes.",
+		explain:    "Elapsed time is not statically decidable; what is decided is that every wait on a command path is bounded by the right parameter and also wakes on its condition, and that every probe loop has an owner that stops it: (R17.1) exhaustive inventory of may-block instructions (select, channel receive/send, WaitGroup.Wait, time.Sleep, Cond.Wait) reachable from the RPC command handlers through calls, closures and joined goroutines, against a frozen table; each select has an arm on time.After(<the function's own timeout parameter>) created once, plus the awaited condition; (R17.1b) the deploy/drain/pause timeouts travel from the RPC argument to those parameters without being swapped (all are time.Duration); (R17.2) disposal chain Service -> both slots -> all targets -> stopHealthChecks -> cancel; (R17.3) remove disposes before unbinding, successful redeploy drains then disposes the replaced balancer, failed deploy disposes the new one on every error path, a timed-out target stops its own probes. (R17.8) probe loops are started only for the targets of a balancer under construction (who-may-call table for run / NewHealthCheck / BeginHealthChecks).",
 		notDecided: []string{"the numeric bounds and promptness as elapsed time", "behaviour of timers under load"},
 		run:        checkC17,
 	})
